@@ -117,6 +117,15 @@ func runConfig(c *corr.Ctx) error {
 			for _, ss := range [][]uint64{nil, {1}, {0}} {
 				c.Emit(configCase(mk(t, d, ss, nil)))
 				grid++
+				if len(ss) > 0 {
+					f := mk(t, d, ss, nil)
+					for i := range f.Stores {
+						f.Stores[i].WorkDir = "/data/s"
+						f.Stores[i].DockerWorkDir = "/docker/s"
+					}
+					c.Emit(configCase(f))
+					grid++
+				}
 			}
 		}
 	}
@@ -138,7 +147,18 @@ func runConfig(c *corr.Ctx) error {
 			if c.Rng.Intn(4) != 0 && id == 0 {
 				id = uint64(j + 1)
 			}
-			f.Stores = append(f.Stores, config.Store{StoreID: id})
+			st := config.Store{StoreID: id}
+			// fields Validate must not depend on
+			if c.Rng.Intn(2) == 0 {
+				st.WorkDir = corr.Pick(c.Rng, []string{"/data/s", " ", "/d/{id}"})
+			}
+			if c.Rng.Intn(3) == 0 {
+				st.DockerWorkDir = "/docker/s"
+			}
+			if c.Rng.Intn(3) == 0 {
+				st.Addr = "127.0.0.1:1"
+			}
+			f.Stores = append(f.Stores, st)
 		}
 		for j, nr := 0, c.Rng.Intn(4); j < nr; j++ {
 			r := config.Region{ID: uint64(c.Rng.Intn(4))}
